@@ -130,6 +130,13 @@ def run(ctx):
         for lim in (1, 2, 3, 5):
             for tail in ("t", "t dfs", "t/sub, t", "t, t/sub", "t depth 1"):
                 argvs.append(["name, size from %s order by %s limit %d" % (tail, key, lim)])
+    # aggregates over values that are not ordinary numbers: NaN (0/0, sqrt / ln of a negative), infinities, fractions, text, empty
+    agg_args = ["size / size", "size % size", "sqrt(size - 50)", "ln(size - 50)", "log(size - 50)", "size / 0", "-size / 0", "size / 3", "name", "''", "size * 1e308 * 10", "size - size",
+                "power(size, 400)", "length(name) / 0 - size / 0"]
+    for fn in ("min", "max", "sum", "avg", "count", "var_pop", "var_samp", "stddev_pop", "stddev_samp"):
+        for a_ in agg_args:
+            argvs.append(["%s(%s) from t" % (fn, a_)])
+        argvs.append(["ext, %s(size / size), %s(sqrt(size - 50)) from t group by ext" % (fn, fn)])
     for extra in (["-c"], ["-i"] * 0 + ["--config"], ["-c", "nonexistent.toml", "name", "from", "t"], [""], [" "], ["'"], ['"unterminated'], ["name", "into"], ["name", "limit"],
                   ["name from t order by 0"], ["name from t order by 2"], ["name from t order by desc"], ["name from t group by"], ["name from t where size =< 3"], ["/"], ["*", "/", "name"],
                   ["(" * 200 + "name"], ["lower(" * 150 + "name" + ")" * 150 + " from t"], ["asc " * 500 + "name from t"],
@@ -197,6 +204,6 @@ def run(ctx):
             ctx.notes.append("%s: witness no longer fails (status %s); update KNOWN_FINDINGS.json" % (kid, cls))
     ctx.coverage.update(
         evaluations=len(vectors) + len(argvs), distinct_nontrivial=len(st["distinct"]), traces_validated_against_impl=st["agreed"],
-        rule="argument vectors: valid queries from a typed grammar rendered as one argument and split at random whitespace with random letter case, token soups of 1-12 tokens over keywords/operators/brackets/quotes/numbers/globs/paths, single-token deletions, duplications, transpositions and character mutations of valid queries (%s); every scalar function with ill-typed, missing and out-of-range arguments in the select list, in WHERE and in ORDER BY; every column kind with uninterpretable literals; date literals with an impossible time of day or calendar day against date columns, as BETWEEN bounds and as arguments of YEAR / MONTH / DAY / DOW; arithmetic (+ - * / %% mod div) over boundary operands - whole-number and fractional zero divisors written as literals or coming from an empty file, i64 extremes, text - as a column, in WHERE and as an ORDER BY key; ORDER BY x LIMIT n over every arrival order the tree offers (bfs, dfs, two roots in both orders); option edge cases. (1) real lexer+parser (harness) vs the Gallina model: outcome class, error message and the whole AST; (2) the binary against a non-empty tree: status in {0,1,2} within 10 s, no panic text, a parse-time rejection prints no row, status 2 comes with a diagnostic. non-trivial = a vector rejected with status 2" % dict(kinds),
+        rule="argument vectors: valid queries from a typed grammar rendered as one argument and split at random whitespace with random letter case, token soups of 1-12 tokens over keywords/operators/brackets/quotes/numbers/globs/paths, single-token deletions, duplications, transpositions and character mutations of valid queries (%s); every scalar function with ill-typed, missing and out-of-range arguments in the select list, in WHERE and in ORDER BY; every column kind with uninterpretable literals; date literals with an impossible time of day or calendar day against date columns, as BETWEEN bounds and as arguments of YEAR / MONTH / DAY / DOW; arithmetic (+ - * / %% mod div) over boundary operands - whole-number and fractional zero divisors written as literals or coming from an empty file, i64 extremes, text - as a column, in WHERE and as an ORDER BY key; every aggregate over NaN, infinite, fractional, text and empty values (plain and grouped); ORDER BY x LIMIT n over every arrival order the tree offers (bfs, dfs, two roots in both orders); option edge cases. (1) real lexer+parser (harness) vs the Gallina model: outcome class, error message and the whole AST; (2) the binary against a non-empty tree: status in {0,1,2} within 10 s, no panic text, a parse-time rejection prints no row, status 2 comes with a diagnostic. non-trivial = a vector rejected with status 2" % dict(kinds),
         samples=st["samples"], distribution=dict(st["hist"]))
     return ctx.finish(trusted=["the machine stack is not modelled: inputs nested thousands of levels deep overflow the real stack (recorded finding) while the model's fuel is linear in the token count"])
